@@ -66,6 +66,12 @@ func credVariants() []credVariant {
 		{"base64-upper-cased", pa("Basic " + strings.ToUpper(b64(user+":"+pass))), false},
 		{"right-then-garbage", pa("Basic " + b64(user+":"+pass) + "AAAA"), false},
 		{"colon-in-user", pa("Basic " + b64(user+":"+pass+":"+pass)), false},
+		// the right octets with the user/password boundary elsewhere: user and password must each be equal
+		{"boundary-one-left", pa("Basic " + b64(user[:len(user)-1]+":"+user[len(user)-1:]+pass)), false},
+		{"boundary-one-right", pa("Basic " + b64(user+pass[:1]+":"+pass[1:])), false},
+		{"all-in-user", pa("Basic " + b64(user+pass+":")), false},
+		{"all-in-password", pa("Basic " + b64(":"+user+pass)), false},
+		{"swapped", pa("Basic " + b64(pass+":"+user)), false},
 	}
 }
 
@@ -161,6 +167,12 @@ func hostVariants() []hostVariant {
 		{name: "[0:0:0:0:0:0:0:0]", authority: "[0:0:0:0:0:0:0:0]", localhost: true},
 		{name: "[::ffff:0.0.0.0]", authority: "[::ffff:0.0.0.0]", localhost: true},
 		{name: "[::ffff:7f00:1]", authority: "[::ffff:7f00:1]", localhost: true},
+		// a zone does not make a loopback address anything else; and names the transport maps to ASCII before it dials
+		// (IDNA: fullwidth letters, ideographic full stop) are judged as what they are dialled as
+		{name: "[::1%25lo]", authority: "[::1%25lo]", localhost: true},
+		{name: "fullwidth-localhost", authority: "\uff4cocalhost", localhost: true},
+		{name: "127.0.0.1-ideographic-full-stops", authority: "127\u30020\u30020\u30021", localhost: true},
+		{name: "fullwidth-denied-name", authority: "\uff44enied.test", denied: true},
 	}
 	if al := hostsFileAliases(); len(al) > 0 {
 		hv = append(hv, hostVariant{name: "hosts-file-alias", authority: al[0], localhost: true},
